@@ -121,8 +121,8 @@ impl RV {
             RV::Rng => "0..2".into(),
             RV::PMap => "{ka: 1}".into(),
             RV::Gen => "yield 20".into(), // see beh_body: the function is a generator
-            RV::InnerNext => "n60".into(),
-            RV::InnerIter => "n61".into(),
+            RV::InnerNext => "n900".into(),
+            RV::InnerIter => "n901".into(),
         }
     }
     /// canonical text of the value when `self` renders as `slf`
@@ -138,8 +138,8 @@ impl RV {
             RV::Iter | RV::Gen => "iter".into(),
             RV::Rng => "range".into(),
             RV::PMap => "m:?".into(),
-            RV::InnerNext => "m:n60".into(),
-            RV::InnerIter => "m:n61".into(),
+            RV::InnerNext => "m:n900".into(),
+            RV::InnerIter => "m:n901".into(),
         }
     }
 }
@@ -707,9 +707,9 @@ fn render_opd(o: &Opd, protos: &mut Vec<usize>, out: &mut String) {
     }
 }
 
-/// the auxiliary objects an `@iterator` may return: n60 has `@next` (two values), n61 has its own
+/// the auxiliary objects an `@iterator` may return: n900 has `@next` (two values), n901 has its own
 /// `@iterator` returning a list
-const INNER_OBJECTS: &str = "n60 =\n  @next: ||\n    tr('n60', 'Next', self)\n    c = tick 'n60.Next'\n    if c < 2 then 10 + c else null\nreg('n60', n60)\nn61 =\n  @iterator: ||\n    tr('n61', 'Iterator', self)\n    [20, 21]\nreg('n61', n61)\n";
+const INNER_OBJECTS: &str = "n900 =\n  @next: ||\n    tr('n900', 'Next', self)\n    c = tick 'n900.Next'\n    if c < 2 then 10 + c else null\nreg('n900', n900)\nn901 =\n  @iterator: ||\n    tr('n901', 'Iterator', self)\n    [20, 21]\nreg('n901', n901)\n";
 
 fn render(c: &Case) -> String {
     let mut s = String::new();
@@ -718,7 +718,7 @@ fn render(c: &Case) -> String {
     if let Some(b) = &c.b {
         render_opd(b, &mut protos, &mut s);
     }
-    if s.contains("n60") || s.contains("n61") {
+    if s.contains("n900") || s.contains("n901") {
         s = format!("{}{}", INNER_OBJECTS, s);
     }
     let a = c.a.var();
@@ -2040,7 +2040,7 @@ impl Ctx {
             let mut script2 = String::new();
             let mut protos = vec![];
             render_opd(&c.a, &mut protos, &mut script2);
-            if script2.contains("n60") || script2.contains("n61") {
+            if script2.contains("n900") || script2.contains("n901") {
                 script2 = format!("{}{}", INNER_OBJECTS, script2);
             }
             script2.push_str(&format!("a, b = {}\n[a, b]\n", c.a.var()));
